@@ -3,10 +3,55 @@
    Statements of the machine-checked theorems this property's check relies on.  Each statement is
    spelled out here and proved from the lemma of the same name under `Peppi/` (generated once by
    `bin/mkprops.py`, then kept as source).  What is proved and what is partial: DESIGN.md §4. -/
+import Peppi.Lemmas.C12Cols
 import Peppi.Lemmas.C12
 import Peppi.Stream
 set_option linter.unusedVariables false
 namespace Peppi.Props.C12
+
+/- from `Peppi.Lemmas.C12Cols` -/
+open Extracted in
+theorem C12_final (T : TextOracle) (hash : Bool) (x : Bytes) :
+    readP T { skipFrames := false, computeHash := hash } x =
+      (match parseHeader x with
+       | .ok (rawLen, r1) =>
+         (match parseStart T r1 with
+          | .ok (ps, r2) =>
+            (match eventLoop (r2.length + 1) rawLen ps r2 with
+             | .ok (ps', r3) => readTail T rawLen ps' r3
+             | .err e => .err e
+             | .panic p => .panic p)
+          | .err e => .err e
+          | .panic p => .panic p)
+       | .err e => .err e
+       | .panic p => .panic p) :=
+  _root_.Peppi.C12_final T hash x
+
+/- from `Peppi.Lemmas.C12Cols` -/
+open Extracted in
+theorem eventLoop_extends : ∀ (fuel rawLen : Nat) (ps : ParseState) (bs : Bytes) (ps' : ParseState) (rest : Bytes),
+    eventLoop fuel rawLen ps bs = .ok (ps', rest) → ps.st.frames.Ext ps'.st.frames
+  | 0, _, _, _, _, _, h => by simp [eventLoop] at h
+  | fuel + 1, rawLen, ps, bs, ps', rest, h => by
+    unfold eventLoop at h
+    split at h
+    · cases hp : parseEvent ps bs with
+      | err e => simp [hp] at h
+      | panic e => simp [hp] at h
+      | ok x =>
+        obtain ⟨⟨code, ps1⟩, r1⟩ :=
+  _root_.Peppi.eventLoop_extends 
+
+/- from `Peppi.Lemmas.C12Cols` -/
+open Extracted in
+theorem parseEvent_extends (ps : ParseState) (bs : Bytes) (code : Nat) (ps' : ParseState) (rest : Bytes)
+    (h : parseEvent ps bs = .ok ((code, ps'), rest)) : ps.st.frames.Ext ps'.st.frames :=
+  _root_.Peppi.parseEvent_extends ps bs code ps' rest h
+
+/- from `Peppi.Lemmas.C12Cols` -/
+open Extracted in
+theorem handleEvent_extends (st : PState) (code : Nat) (buf : Bytes) : Res.Post (ColsExtend st) (handleEvent st code buf) :=
+  _root_.Peppi.handleEvent_extends st code buf
 
 /- from `Peppi.Lemmas.C12` -/
 open Extracted in
